@@ -390,7 +390,7 @@ def dispatch_rule(run, ctx):
     fn = S.get_fn(run, ctx, "Regex::find_from_pos_with_option_flags", fam, "find-slots")
     if fn is not None:
         news = [n for n in H.walk(fn["body"]) if n.get("k") == "Call" and H.canon(n).startswith("Match::new(")]
-        ok = [n for n in news if H.pat_match("Match::new({t},{s}[0],{s}[1])", H.canon(n))]
+        ok = [n for n in news if H.pat_match("Match::new({t},{s}[0],{s}[1])", H.canon(n)) or H.pat_match("Match::new({t},{s}[0]..{s}[1])", H.canon(n))]
         oks = [n for n in news if H.pat_match("Match::new({t},{m}.start(),{m}.end())", H.canon(n))]
         if len(ok) < 1:
             run.violation(fam, "find-slots", "find/slots", H.where(fn), "find must build its Match from slots 0 and 1 of the VM result (found %s)" % [H.canon(n) for n in news])
@@ -423,7 +423,7 @@ def split_rule(run, ctx):
     if fn is None:
         return
     w = H.where(fn)
-    paths = S.paths_of(fn["body"])
+    paths = S.paths_of(fn["body"], combinators=True)
     n = 0
     saw = {"none-rem": 0, "none-done": 0, "ok": 0, "err": 0}
     for p in paths:
@@ -433,6 +433,17 @@ def split_rule(run, ctx):
                 run.violation(fam, label, "bypass", w, "Split::next has a path that yields %s without consulting the match iterator: pieces are exactly the text between consecutive find_iter matches, so every call must be answered from matches.next()" % S.ret_value(p))
             continue
         a0 = arms[0]
+        mres = re.match(r"^Some\((\w+)\)$", a0.b or "")
+        if mres:
+            # `Some(result)` decided afterwards by result.map(|m| ..) / a match on result: the same two classes
+            dec = [ev for ev in p.events if (ev.kind == "letcond" and ev.b == mres.group(1)) or (ev.kind == "arm" and ev.a == mres.group(1))]
+            if dec:
+                d0 = dec[0]
+                pat_ = d0.a if d0.kind == "letcond" else d0.b
+                truth = d0.c if d0.kind == "letcond" else True
+                if not truth:
+                    pat_ = "Err(_)" if pat_.startswith("Ok(") else "Ok(_)"
+                a0 = H.Ev("arm", a0.a, "Some(%s)" % pat_, node=a0.node)
         ITER = a0.a[:-len(".next()")]
         v = S.ret_value(p)
         n += 1
